@@ -17,7 +17,7 @@ import runner
 import term
 from build import MachineryError
 from explore import Violation
-from lattice import base_opts, build_args
+from lattice import base_opts, build_args, classify_style
 
 PROP = "C05"
 
@@ -56,6 +56,52 @@ def hunk_lines(shape, os_, ns, long_mask, frag="", moved=False):
         else:
             lines.append(c + content)
     return lines
+
+
+def run_shapes(task):
+    """two shapes of real input around the hunk's extent (differential, no hand-written numbers):
+    (1) an unchanged empty line written without its leading blank (`diff.suppressBlankEmpty`, `diff -u
+        --suppress-blank-empty`, whitespace-stripping mail tools) is the same diff as with the blank: same output;
+    (2) text after a hunk that is complete by the counts of its `@@` line (the `-- ` signature and version line that
+        end every `git format-patch` file) is not part of the file: it carries no line numbers."""
+    deadline, = task
+    drv = explore.get_driver()
+    viols = {}
+    n = 0
+    head = b"diff --git a/f.txt b/f.txt\n--- a/f.txt\n+++ b/f.txt\n@@ -1,5 +1,5 @@\n a\n"
+    tail = b"-b\n+c\n d\n e\n"
+    for label, o in (("line-numbers", {"line-numbers": True}), ("side-by-side", {"side-by-side": True, "width": "60"})):
+        args = build_args(base_opts(o))
+        cid = drv.mkconfig(args)
+        a = drv.render1(cid, head + b" \n" + tail).out
+        b = drv.render1(cid, head + b"\n" + tail).out
+        n += 2
+        if term.strip(a.decode()).replace(" ", "") != term.strip(b.decode()).replace(" ", ""):
+            k = "empty-context-line-not-counted"
+            if k not in viols:
+                v = Violation(k, "[%s] the hunk with an entirely empty unchanged line is numbered differently from the same "
+                              "hunk with ` ` for that line" % label, (head + b"\n" + tail).split(b"\n")[:-1], None,
+                              term.strip(a.decode())[-300:], term.strip(b.decode())[-300:])
+                v.args = args
+                viols[k] = v
+        body = b"diff --git a/f.txt b/f.txt\n--- a/f.txt\n+++ b/f.txt\n@@ -1,2 +1,2 @@\n a\n-b\n+c\n"
+        r = drv.render1(cid, body + b"-- \n2.39.0\n\n")
+        r0 = drv.render1(cid, body)
+        n += 2
+        rows = term.decode(r.out)
+        extra = rows[len(term.decode(r0.out)):]
+        numbered = [row.text for row in extra if any(c.isdigit() for t, st in row.runs
+                                                      if classify_style(st) in ("ln_minus", "ln_plus", "ln_zero") for c in t)]
+        if numbered:
+            k = "text-after-complete-hunk-numbered"
+            if k not in viols:
+                v = Violation(k, "[%s] the hunk is complete after 3 lines (`@@ -1,2 +1,2 @@`), yet the mail signature `-- ` "
+                              "that follows is shown as line %r of the file" % (label, numbered[0].strip()),
+                              (body + b"-- \n2.39.0\n").split(b"\n")[:-1])
+                v.args = args
+                viols[k] = v
+        drv.drop(cid)
+    return {"n": n, "violations": list(viols.values())}
 
 
 def file_header(name):
@@ -388,6 +434,7 @@ def main(tier):
         for i in range(0, len(cases), step):
             split.append((label, opts, view, fmt, hh, cases[i:i + step], deadline))
     results = explore.pmap(run_task, split)
+    sres = explore.pmap(run_shapes, [(deadline,)])
     n = 0
     distinct = set()
     viols = []
@@ -400,6 +447,9 @@ def main(tier):
             caps.append(r["label"])
         if r["sample"] and len(samples) < 4:
             samples.append(r["sample"])
+        viols.extend(r["violations"])
+    for r in sres:
+        n += r["n"]
         viols.extend(r["violations"])
     best = {}
     for v in viols:
